@@ -25,6 +25,13 @@ class Ownership:
         self.P = P
         self.cg = CallGraph(P)
         self.summ = {q: {"ret": set(), "mut": {}} for q in P.functions}
+        # attributes the constructors of the package classes create: the state of an object as its user knows it
+        self.ctor_attrs = set()
+        for q, fi in P.functions.items():
+            if q.endswith(".__init__"):
+                for n in ast.walk(fi.node):
+                    if isinstance(n, ast.Attribute) and isinstance(n.ctx, ast.Store) and isinstance(n.value, ast.Name) and n.value.id == "self":
+                        self.ctor_attrs.add(n.attr)
         self.rounds = 0
         changed = True
         while changed and self.rounds < 12:
@@ -145,6 +152,8 @@ class _Interp:
                 if k == "S":
                     self.note(p, c, f"numpy.{f.attr}() writes into an object of the caller")
         if isinstance(f, ast.Attribute):
+            if self._memo_slot(c):
+                return set()  # a private memo created on first use: fresh, not the caller's state
             recv = self.ev(f.value)
             if f.attr in MUTATORS:
                 for k, p in recv:
@@ -216,6 +225,17 @@ class _Interp:
                 out |= {("C", p) for k, p in t}
             return out
         return set()
+
+    def _memo_slot(self, c) -> bool:
+        """`obj.__dict__.setdefault("_key", <fresh container>)` with a private key that no constructor creates: a memo that comes
+        into being on first use.  It is not part of the object's state as its user knows it (C18 speaks of settings and
+        arguments); whether what is kept in it changes later answers is decided by the sequence rules (C02 R02.4)."""
+        f = c.func
+        return (isinstance(f, ast.Attribute) and f.attr == "setdefault" and isinstance(f.value, ast.Attribute) and f.value.attr == "__dict__"
+                and len(c.args) == 2 and isinstance(c.args[0], ast.Constant) and isinstance(c.args[0].value, str) and c.args[0].value.startswith("_")
+                and c.args[0].value not in self.own.ctor_attrs
+                and (isinstance(c.args[1], (ast.Dict, ast.List, ast.Set)) and not getattr(c.args[1], "keys", None) and not getattr(c.args[1], "elts", None)
+                     or isinstance(c.args[1], ast.Call) and isinstance(c.args[1].func, ast.Name) and c.args[1].func.id in ("dict", "list", "set") and not c.args[1].args and not c.args[1].keywords))
 
     def bind(self, tgt, t):
         if isinstance(tgt, ast.Name):
